@@ -62,6 +62,7 @@ def check(ctx) -> None:
     r65(ctx)
     r66(ctx)
     r67(ctx, cg)
+    r68(ctx)
     ctx.extra_coverage['call_graph'] = {
         'functions': len(cg.funcs), 'call_sites_resolved': cg.resolved,
         'call_sites_unresolved': cg.unresolved,
@@ -733,3 +734,98 @@ def r67(ctx, cg) -> None:
             'every attribute FetchAttribute.parse accepts has a fetch value '
             'class', f'accepted but not dispatched: '
             f'{sorted(accepted - keys)}: FETCH of it raises KeyError')
+
+
+# ----------------------------------------------------------------------
+def _is_lock_call(e) -> bool:
+    return isinstance(e, ast.Call) and call_name(e) in ('read_lock',
+                                                        'write_lock') and \
+        isinstance(e.func, ast.Attribute) and \
+        isinstance(e.func.value, ast.Attribute) and \
+        isinstance(e.func.value.value, ast.Name)
+
+
+def r68(ctx) -> None:
+    R = ctx.rule('R6.8', 'no self-deadlock on a non-reentrant lock', 2)
+    n = 0
+    for f in ctx.proj.all_funcs('pymap/backend/'):
+        if f.rel.startswith('pymap/backend/redis/') or f.cls is None:
+            continue
+        if 'write_lock' not in f.module.src:
+            continue
+        # parameters that may alias self: annotated with the own class
+        aliases = []
+        a = f.node.args
+        for p in a.posonlyargs + a.args + a.kwonlyargs:
+            if p.arg in ('self', 'cls') or p.annotation is None:
+                continue
+            t = txt(p.annotation).strip('"\'')
+            if t.split('[')[0].split('.')[-1] in (f.cls.name, 'MailboxDataT',
+                                                  'Self'):
+                aliases.append(p.arg)
+        if not aliases:
+            continue
+        # acquisitions: (receiver, lock attr, kind, syntax node, scope node)
+        acqs = []
+        for w in walk_local(f.node):
+            if isinstance(w, ast.AsyncWith):
+                for it in w.items:
+                    e = it.context_expr
+                    if _is_lock_call(e):
+                        acqs.append((e.func.value.value.id,
+                                     e.func.value.attr.lstrip('_'),
+                                     call_name(e), e, w))
+            elif isinstance(w, ast.Call) and \
+                    call_name(w) == 'enter_async_context' and w.args and \
+                    _is_lock_call(w.args[0]):
+                e = w.args[0]
+                scope = next(iter(enclosing(f.node, w, (ast.AsyncWith,))),
+                             f.node)
+                acqs.append((e.func.value.value.id,
+                             e.func.value.attr.lstrip('_'), call_name(e), e,
+                             scope))
+
+        def active_with(a, b) -> bool:
+            """b is acquired while a is still held."""
+            sa, sb = a[4], b[4]
+            if sa is sb:
+                return True
+            return any(x is sb for x in ast.walk(sa)) or \
+                any(x is b[3] for x in ast.walk(sa))
+        for al in aliases:
+            for a in acqs:
+                if a[0] != 'self':
+                    continue
+                for b in acqs:
+                    if b[0] != al or b[1] != a[1]:
+                        continue
+                    if 'write_lock' not in (a[2], b[2]):
+                        continue
+                    if not (active_with(a, b) or active_with(b, a)):
+                        continue
+                    n += 1
+                    la = a[1]
+                    guarded = False
+                    for node in (a[3], b[3]):
+                        for t in enclosing(f.node, node, (ast.If,)):
+                            s_ = txt(t.test).replace(' ', '')
+                            if s_ in (f'{al}isnotself', f'selfisnot{al}',
+                                      f'{al}!=self') and any(
+                                    x is node for bb in t.body
+                                    for x in ast.walk(bb)):
+                                guarded = True
+                    R.check(guarded, f, b[3],
+                            f'{f.qualname}: self.{la} and {al}.{la} are '
+                            f'not held together unless `{al} is not self`',
+                            f'`{al}` may be the same object as `self` '
+                            f'(both come from the per-session mailbox '
+                            f'cache) and both `{la}` locks are held '
+                            f'together; the lock is not reentrant, so a '
+                            f'command whose destination is the selected '
+                            f'mailbox itself (MOVE 1 INBOX with INBOX '
+                            f'selected) waits for itself forever and is '
+                            f'never answered')
+    R.ok(None, None, 'nested same-class lock acquisitions scanned',
+         f'{n} site(s) where self and an alias parameter are locked '
+         f'together')
+    R.minimum = 1
